@@ -173,3 +173,65 @@ class Program:
 
     def features(self, crate):
         return self.crates[crate]["features"]
+
+
+class FnCtx:
+    """Function + lazily built CFG / provenance, cached per Program."""
+
+    def __init__(self, prog, fn):
+        from .cfg import Cfg
+        from .prov import Prov
+        self.prog = prog
+        self.fn = fn
+        self.path = fn["path"]
+        self.cfg = Cfg(fn)
+        self.prov = Prov(fn, self.cfg)
+
+    def term_at(self, bb):
+        b = self.cfg.block(bb)
+        return (bb, len(b["stmts"]))
+
+    def args(self, bb):
+        """Provenance expressions of the call arguments at block bb."""
+        t = self.cfg.term(bb)
+        at = self.term_at(bb)
+        return [self.prov.operand(a, at) for a in t.get("args", [])]
+
+    def site(self, bb):
+        from .cfg import span_str
+        return span_str(self.cfg.term(bb).get("sp"))
+
+    def edge_facts(self, edge):
+        from .conds import switch_edge_facts
+        return switch_edge_facts(self.cfg, self.prov, self.prog, edge)
+
+    def ret_expr(self):
+        """Provenance of the returned value (_0) at each return block: {bb: expr}."""
+        out = {}
+        for rb in self.cfg.return_blocks():
+            if rb in self.cfg.live_blocks():
+                out[rb] = self.prov.place({"l": 0}, self.term_at(rb))
+        return out
+
+
+def _ctx(self, path_or_fn):
+    fn = path_or_fn if isinstance(path_or_fn, dict) else self.fns.get(path_or_fn)
+    if fn is None:
+        return None
+    cache = self.__dict__.setdefault("_ctx_cache", {})
+    c = cache.get(fn["path"])
+    if c is None:
+        c = FnCtx(self, fn)
+        cache[fn["path"]] = c
+    return c
+
+
+def _cg(self):
+    from .callgraph import CallGraph
+    if "_callgraph" not in self.__dict__:
+        self.__dict__["_callgraph"] = CallGraph(self)
+    return self.__dict__["_callgraph"]
+
+
+Program.ctx = _ctx
+Program.callgraph = _cg
